@@ -38,7 +38,7 @@ for c in checks:
         "evidence_file": f"/verif/evidence/{pid}.json",
         "replay_cmd_template": "bin/verif replay {path}",
         "engine": "gosym",
-        "level_claimed": {"category": "model_checking", "text": c["text"], "design_ref": f"DESIGN.md §5 {pid}"},
+        "level_claimed": {"category": "model_checking", "text": c["text"], "design_ref": f"DESIGN.md Appendix G {pid} (as built); §5 {pid} (design)"},
         "level_note": c["note"] or "trusted: go/ssa, the interpreter and its listed stubs/intrinsics, the SMT solver; nothing beyond the bounds written to the evidence file",
         "technique": c.get("technique", "bounded symbolic execution of the real go/ssa code + SMT (z3), counter-examples replayed natively"),
     })
